@@ -90,6 +90,73 @@ def specialQ : Special XR where
 def erfinvRat (pi l x : Rat) : Rat :=
   erfinvWith (K := Rat) ⟨id, pi, fun _ => l, sqrtQ⟩ x
 
+/-- a generator by name: axis kind, density, factors of the density (both as modelled, the opaque functions at 40
+digits), the location that is subtracted from `x` (0 if none) and whether the density goes through `log x − mu` -/
+structure Gen where
+  /-- the generator itself (`beta`, `exponential`, … of `PewModel/Convolve.lean`: the subject of `*_isKernel`) -/
+  rows : Nat → Rat → Rat → List (Rat × XR)
+  kind : AxisKind
+  pdf : Rat → XR
+  factors : Rat → List XR
+  loc : Rat
+  logk : Bool
+
+def genOf (name : String) (args : List Rat) : R Gen := do
+  let a0 := args.getD 0 0
+  let a1 := args.getD 1 0
+  let need (k : Nat) : R Unit := if args.length == k then pure () else throw s!"{name}: {k} parameters expected"
+  match name with
+  | "beta" => do need 2; pure ⟨fun n sc sh => beta specialQ n a0 a1 sc sh, .unit, betaPdf specialQ a0 a1, betaFactors specialQ a0 a1, 0, false⟩
+  | "exponential" => do need 1; pure ⟨fun n sc sh => exponential specialQ n a0 sc sh, .pos, exponentialPdf specialQ a0, exponentialFactors specialQ a0, 0, false⟩
+  | "inversegamma" => do need 2; pure ⟨fun n sc sh => inversegamma specialQ n a0 a1 sc sh, .pos, inversegammaPdf specialQ a0 a1, inversegammaFactors specialQ a0 a1, 0, false⟩
+  | "laplace" => do need 2; pure ⟨fun n sc sh => laplace specialQ n a0 a1 sc sh, .sym, laplacePdf specialQ a0 a1, laplaceFactors specialQ a0 a1, a1, false⟩
+  | "loglaplace" => do need 2; pure ⟨fun n sc sh => loglaplace specialQ n a0 a1 sc sh, .pos, loglaplacePdf specialQ a0 a1, loglaplaceFactors specialQ a0 a1, a1, true⟩
+  | "lognormal" => do need 2; pure ⟨fun n sc sh => lognormal specialQ n a0 a1 sc sh, .pos, lognormalPdf specialQ a0 a1, lognormalFactors specialQ a0 a1, a1, true⟩
+  | "normal" => do need 2; pure ⟨fun n sc sh => normal specialQ n a0 a1 sc sh, .sym, normalPdf specialQ a0 a1, normalFactors specialQ a0 a1, a1, false⟩
+  | "super_gaussian" => do
+      need 3
+      let p := args.getD 2 0
+      if p.den != 1 || p < 0 then throw "super_gaussian: integer power expected"
+      pure ⟨fun n sc sh => superGaussian specialQ n a0 a1 p.num.toNat sc sh, .sym, superGaussianPdf specialQ a0 a1 p.num.toNat, superGaussianFactors specialQ a0 a1 p.num.toNat, a1, false⟩
+  | _ => throw s!"unknown generator {name}"
+
+def allSome (l : List XR) : Option (List Rat) := l.mapM id
+
+/-- how far the point at which a double-precision evaluation really samples the density may lie from the exact
+axis point `x`: the rounding of `linspace` and of `x − loc` (`2⁻⁴⁰` of the largest magnitude involved, 4000 ulp)
+and, for the densities that go through `log x − mu`, the rounding of that difference expressed as a relative
+change of `x` -/
+def tailDelta (g : Gen) (axis : List Rat) (x : Rat) : Rat :=
+  let big := axis.foldl (fun m v => max m (absR v)) 0 + absR g.loc
+  big / 2 ^ 40 + (if g.logk then absR x * (1 + absR g.loc) / 2 ^ 36 else 0)
+
+/-- THE DECISION "the float sum of the densities is positive and finite" (specification side, nothing of the
+implementation is looked at): `robust` = at the axis point of largest modelled density, and at that point moved
+by `± tailDelta`, every product of a sub-collection of the factors lies in `[64·2⁻¹⁰⁷⁴, 2¹⁰⁰⁰]`
+(`robustFactors`, `robustFactors_spec`); `overflow` = at some axis point a factor leaves the domain of its
+function or a sub-product exceeds `2¹⁰⁰⁰` (an `inf` may appear, and `inf · 0 = nan`). -/
+def tailDecision (g : Gen) (axis : List Rat) : Json :=
+  let dens := axis.map g.pdf
+  let best : Option (Rat × Rat) := (axis.zip dens).foldl
+    (fun acc (x, d) => match d, acc with
+      | some v, some (_, bv) => if bv < v then some (x, v) else acc
+      | some v, none => some (x, v)
+      | none, _ => acc) none
+  let facs := axis.map (fun x => allSome (g.factors x))
+  let overflow := facs.any (fun f => match f with | none => true | some fs => overflowFactors fs)
+  let robustAt (x : Rat) : Bool := match allSome (g.factors x) with
+    | none => false
+    | some fs => robustFactors fs
+  let (robust, delta) : Bool × Rat := match best with
+    | none => (false, 0)
+    | some (x, _) =>
+      let d := tailDelta g axis x
+      (robustAt x && robustAt (x - d) && robustAt (x + d), d)
+  let dsum : Option Rat := (allSome dens).map List.sum
+  jObj [("robust", jBool robust), ("overflow", jBool overflow), ("delta", jRat delta),
+        ("dsum", jOpt jRat dsum), ("dmax", jOpt jRat (best.map Prod.snd)),
+        ("best_x", jOpt jRat (best.map Prod.fst))]
+
 def handle (op : String) (req : Json) : R Json := do
   match op with
   | "c18.convolve" =>
@@ -111,6 +178,7 @@ def handle (op : String) (req : Json) : R Json := do
     pure (jObj [("model", jRats out),
                 ("full", jRats full), ("valid", jRats (convValid x psf)),
                 ("same", jRats ((full.drop ((m - 1) / 2)).take (max n m))),
+                ("entries", jRats (padConvSpec x psf)),
                 ("spec", jObj [("length", jNat n),
                                ("interior", jList (fun k => jList id [jNat k, jRat (fullConvAt x psf (k + shiftC))]) interior),
                                ("constant", jOpt jRat const)])])
@@ -175,32 +243,19 @@ def handle (op : String) (req : Json) : R Json := do
     pure (jObj [("x", jRats (rows.map Prod.fst)), ("y", jRats (rows.map Prod.snd)),
                 ("hyp", jBool (decide (a < b) && inside))])
   | "c18.kernel" =>
-    -- a generator as modelled, the opaque functions at 40 digits; y = null when a value left the functions' domain
+    -- a generator as modelled, the opaque functions at 40 digits; y = null when a value left the functions' domain;
+    -- tail = the decision whether a double-precision evaluation of the densities has a positive finite sum
     let name ← getStr req "name"
     let size ← getNat req "size"
     let args ← getList asRat req "args"
     let scale ← getRat req "scale"
     let shift ← getRat req "shift"
-    let a0 := args.getD 0 0
-    let a1 := args.getD 1 0
-    let need (k : Nat) : R Unit := if args.length == k then pure () else throw s!"{name}: {k} parameters expected"
-    let rows : List (Rat × XR) ← match name with
-      | "beta" => do need 2; pure (beta specialQ size a0 a1 scale shift)
-      | "exponential" => do need 1; pure (exponential specialQ size a0 scale shift)
-      | "inversegamma" => do need 2; pure (inversegamma specialQ size a0 a1 scale shift)
-      | "laplace" => do need 2; pure (laplace specialQ size a0 a1 scale shift)
-      | "loglaplace" => do need 2; pure (loglaplace specialQ size a0 a1 scale shift)
-      | "lognormal" => do need 2; pure (lognormal specialQ size a0 a1 scale shift)
-      | "normal" => do need 2; pure (normal specialQ size a0 a1 scale shift)
-      | "super_gaussian" => do
-          need 3
-          let p := args.getD 2 0
-          if p.den != 1 || p < 0 then throw "super_gaussian: integer power expected"
-          pure (superGaussian specialQ size a0 a1 p.num.toNat scale shift)
-      | _ => throw s!"unknown generator {name}"
+    let g ← genOf name args
+    let rows : List (Rat × XR) := g.rows size scale shift
     let ys := rows.map Prod.snd
     let y : Option (List Rat) := if ys.all Option.isSome then some (ys.map (·.getD 0)) else none
-    pure (jObj [("x", jRats (rows.map Prod.fst)), ("y", jOpt jRats y)])
+    pure (jObj [("x", jRats (rows.map Prod.fst)), ("y", jOpt jRats y),
+                ("tail", tailDecision g (axisOf g.kind size scale shift))])
   | _ => throw s!"unknown op {op}"
 
 end PewDriver.C18
